@@ -134,11 +134,14 @@ impl CfgPred {
 
     /// Lean data term (`Cfg` inductive) for tables
     pub fn lean_data(&self) -> String {
+        fn id(s: &str) -> String {
+            s.replace('-', "_").replace('.', "_").replace('=', "_")
+        }
         match self {
-            CfgPred::Feature(f) => format!("(.feature \"{f}\")"),
-            CfgPred::TargetArch(a) => format!("(.targetArch \"{a}\")"),
-            CfgPred::TargetFeature(f) => format!("(.targetFeature \"{f}\")"),
-            CfgPred::Flag(f) => format!("(.flag \"{f}\")"),
+            CfgPred::Feature(f) => format!("(.feature .{})", id(f)),
+            CfgPred::TargetArch(a) => format!("(.targetArch .{})", id(a)),
+            CfgPred::TargetFeature(f) => format!("(.targetFeature .{})", id(f)),
+            CfgPred::Flag(f) => format!("(.flag .{})", id(f)),
             CfgPred::Not(p) => format!("(.not {})", p.lean_data()),
             CfgPred::Any(ps) => format!(
                 "(.any [{}])",
